@@ -44,6 +44,17 @@ Theorem withdraw_pays_shown P now s d v s' :
 Proof. exact (withdraw_pays_shown_lemma P now s d v s'). Qed.
 Print Assumptions withdraw_pays_shown.
 
+(* ... and it mints in the BONDED denomination only (Staking.TOKEN is the model's name of the configured bonded
+   denom): no balance and no supply of any other denomination changes — in particular nothing is minted in the
+   default denom "TOKEN" when another bonded denom is configured *)
+Theorem withdraw_touches_no_other_denomination P now s d v s' :
+  bank_wf (s_bank s) -> exec_withdraw P now s d v = SOk s' ->
+  forall dn, dn <> TOKEN ->
+    (forall x, bank_balance (s_bank s') x dn = bank_balance (s_bank s) x dn) /\
+    bank_supply (s_bank s') dn = bank_supply (s_bank s) dn.
+Proof. exact (withdraw_others P now s d v s'). Qed.
+Print Assumptions withdraw_touches_no_other_denomination.
+
 (* ... after which the pending reward shown for the pair is zero *)
 Theorem withdraw_resets P now s d v s' :
   stakers_ok s -> last_ok now s -> bank_wf (s_bank s) -> exec_withdraw P now s d v = SOk s' ->
@@ -226,7 +237,7 @@ Print Assumptions C15_model_ok_with_lower.
 (* two delegators on one validator (commission 10 %), one more on a second validator, half a year later:
    rewards pending everywhere; delegator 1 has set account 3 as its withdraw address *)
 Definition ex15_su : setup :=
-  mkSetup 60 100000000000000000 [(1, 100000000000000000); (2, 250000000000000000)] [(1, 5000); (2, 5000); (3, 0)] [1; 2] 1571797419879305533.
+  mkSetup 60 100000000000000000 [(1, 100000000000000000); (2, 250000000000000000)] [(1, 5000); (2, 5000); (3, 0)] [1; 2] 1571797419879305533 USTAKE XDEN.
 Definition ex15_ops : list op :=
   [Delegate 1 1 700 true; Delegate 2 1 300 true; Delegate 2 2 1000 true; SetWithdraw 1 (Some 3); Advance 15768000500000000].
 Definition ex15_w0 : world := Eval vm_compute in ok_or_dummy (init_world ex15_su).
@@ -270,7 +281,7 @@ Proof. eexists. vm_compute. reflexivity. Qed.
 
 (* the hypotheses of C15_model_ok / rewards_upper_single_partial: the example scenario with paying withdrawals *)
 Definition ex15_ops2 : list op := ex15_ops ++ [Withdraw 1 1; Withdraw 2 2; Withdraw 1 1; Advance 1000000000; Withdraw 2 1].
-Definition ex15_m0 : snap := Eval vm_compute in match model_snap ex15_su ex15_w0 with SOk m => m | _ => mkSnap [] [] [] [] 0 0 end.
+Definition ex15_m0 : snap := Eval vm_compute in match model_snap ex15_su ex15_w0 with SOk m => m | _ => mkSnap [] [] [] [] 0 0 [] [] end.
 Definition ex15_run2 : list (oc * snap * world) := Eval vm_compute in model_run ex15_su ex15_w0 ex15_m0 ex15_ops2.
 Example ex15_run2_eq : model_run ex15_su ex15_w0 ex15_m0 ex15_ops2 = ex15_run2. Proof. vm_compute. reflexivity. Qed.
 Example ex15_model_ok_hyps :
@@ -332,7 +343,7 @@ Qed.
 
 (* C15_model_ok_with_lower: its hypotheses hold for the example run (ex15_model_ok_hyps + comm_ok), where no clause
    of C15m35 fails; and on the DriftZeroTotal history the model's own run fails clause 35 for pair (1,1) — in the class *)
-Definition dz_m0 : snap := Eval vm_compute in match model_snap dz_su dz_w0 with SOk m => m | _ => mkSnap [] [] [] [] 0 0 end.
+Definition dz_m0 : snap := Eval vm_compute in match model_snap dz_su dz_w0 with SOk m => m | _ => mkSnap [] [] [] [] 0 0 [] [] end.
 Definition dz_run : list (oc * snap * world) := Eval vm_compute in model_run dz_su dz_w0 dz_m0 dz_ops.
 Example ex15_lower_clause :
   comm_ok ex15_su /\
